@@ -3,6 +3,7 @@
 package rules
 
 import (
+	"go/token"
 	"sort"
 	"strings"
 
@@ -55,4 +56,38 @@ func IDs() []string {
 	}
 	sort.Strings(s)
 	return s
+}
+
+// withHelpers returns fn followed by the unexported functions of its package
+// that it reaches through static calls within depth levels: a rule that looks
+// for something "in fn" accepts it in a helper extracted from fn.
+func withHelpers(fn *ssa.Function, depth int) []*ssa.Function {
+	out := []*ssa.Function{fn}
+	seen := map[*ssa.Function]bool{fn: true}
+	frontier := []*ssa.Function{fn}
+	for d := 0; d < depth; d++ {
+		var next []*ssa.Function
+		for _, f := range frontier {
+			for _, b := range f.Blocks {
+				for _, in := range b.Instrs {
+					ci, ok := in.(ssa.CallInstruction)
+					if !ok {
+						continue
+					}
+					if _, isGo := in.(*ssa.Go); isGo {
+						continue
+					}
+					cal := ci.Common().StaticCallee()
+					if cal == nil || cal.Blocks == nil || cal.Pkg != fn.Pkg || seen[cal] || token.IsExported(cal.Name()) {
+						continue
+					}
+					seen[cal] = true
+					out = append(out, cal)
+					next = append(next, cal)
+				}
+			}
+		}
+		frontier = next
+	}
+	return out
 }
